@@ -3,11 +3,13 @@ import random
 
 import vlib
 from watch_common import CONC_SPECS, XMapSpec
+from scale_common import ScaleSpec
 
 PROP_FILES = ["C18"]
 MODULE = "harness_watch"
 EXE = "runner-watch"
 SPECS = {cls().component: (cls(), MODULE, EXE) for cls in CONC_SPECS + [XMapSpec]}
+SPECS["scale"] = (ScaleSpec(['c18-extras']), "harness", "runner")
 
 
 def race_tier(ctx):
@@ -56,6 +58,11 @@ def run(ctx):
         vlib.seq_differential(ctx, spec, exe, proofs_ok, tag=spec.component)
         if ctx.tier == "thorough" and cls is not XMapSpec:
             vlib.patience_part(ctx, spec, exe, proofs_ok, tag=spec.component, ncases=16)
+    okS, outS, exeS = vlib.build_runner()
+    if okS:
+        vlib.seq_differential(ctx, ScaleSpec(['c18-extras']), exeS, proofs_ok, tag="scale")
+    else:
+        ctx.violation("harness-build", "the harness does not build against the current tree: " + outS[-1500:], {"build_output": outS[-4000:]}, failing_input=False)
     if ctx.tier == "thorough":
         race_tier(ctx)
     vlib.merge_parts(ctx, "part A: cases = controller scripts over a fixed set of goroutines (programs of Set/Value calls and observer loops behind common start gates; "
